@@ -36,7 +36,7 @@ def one(kind, name):
                 break
             rc, o = sh("VERIF_REPO=%s VERIF_SCRATCH_OUT=%s ./check %s --tier quick" % (wt, out, c), cwd="/verif")
             vio = [l for l in o.split("\n") if l.startswith("VIOLATION")]
-            res[c] = {"exit": rc, "violations": len(vio), "no_input": any(l.rstrip().endswith("no-failing-input-found") for l in vio)}
+            res[c] = {"exit": rc, "violations": len(vio), "no_input": bool(vio) and all(l.rstrip().endswith("no-failing-input-found") for l in vio)}
         if kind == "seeded":
             ok = any(r["exit"] != 0 for r in res.values())
             verdict = "detected" if ok else "MISSED"
